@@ -228,6 +228,33 @@ main (int argc, char **argv)
           printf ("%d", blk2[i]);
         printf ("\n");
       }
+  /* every non-zero edflag means "decrypt" to a caller compiled against void encrypt (char *, int) */
+  if (sk && en && skr && enr)
+    {
+      static const int flags[] = { 0, 1, 2, -1, 255, 256, 512, 0x1000, 0x10000, 0x7fffff00, (int) 0x80000000u };
+      for (unsigned t = 0; t < sizeof flags / sizeof *flags; t++)
+        {
+          char key[64], blk[64], blk2[64];
+          for (int i = 0; i < 64; i++)
+            {
+              key[i] = (char) ((i * 3 + 1) % 4 == 0);
+              blk[i] = (char) ((i * 7 + 2) % 3 == 0);
+            }
+          memcpy (blk2, blk, 64);
+          sk (key);
+          en (blk, flags[t]);
+          memset (&d, 0, sizeof d);
+          skr (key, &d);
+          enr (blk2, flags[t], &d);
+          printf ("encrypt/edflag=%d => ", flags[t]);
+          for (int i = 0; i < 64; i++)
+            printf ("%d", blk[i]);
+          printf (" / _r ");
+          for (int i = 0; i < 64; i++)
+            printf ("%d", blk2[i]);
+          printf ("\n");
+        }
+    }
   /* an object moved between setkey_r and encrypt_r (struct assignment into a record, realloc of an array of objects): with the
      released library the keyed object is a plain value as long as both places are 4-byte aligned */
   if (skr && enr)
